@@ -96,10 +96,10 @@ theorem C16_function {cx : Ctx} {fuel : Nat} {vs : List Id} {fo fn : Id} {s s' :
     (hne : fo ≠ fn) (hvs : fo ∉ vs) (hc : s.cache.find? (fun e => e.1 = (fo, fn)) = none)
     (hfo : s.heap[fo]? = some (.func n m c d dc di ce fv)) (hfn : s.heap[fn]? = some (.func n' m' c' d' dc' di' ce' fv'))
     (h : lp cx fuel false vs fo fn s = .ok (r, s')) :
-    (sameModule cx m' = true → funcCompat s.heap fo fn = true →
+    (patchable cx m m' = true → funcCompat s.heap fo fn = true →
         r = fo ∧ (NoMethRef s.heap fo → s'.heap[fo]? = some (.func n m c' d' dc' di ce fv))) ∧
-    (sameModule cx m' = true → funcCompat s.heap fo fn = false → r = fn ∧ s'.heap = s.heap) ∧
-    (sameModule cx m' = false → r = fn ∧ s'.heap = s.heap) := by
+    (patchable cx m m' = true → funcCompat s.heap fo fn = false → r = fn ∧ s'.heap = s.heap) ∧
+    (patchable cx m m' = false → r = fn ∧ s'.heap = s.heap) := by
   cases fuel with
   | zero => unfold lp at h; exact (fail_ok.mp h).elim
   | succ k =>
@@ -121,7 +121,7 @@ theorem C16_function {cx : Ctx} {fuel : Nat} {vs : List Id} {fo fn : Id} {s s' :
     obtain ⟨kd, s4, h7, h8⟩ := bind_ok.mp h3
     rw [resolveKind_func hfo hfn] at h7
     cases h7
-    by_cases hsm : sameModule cx m' = true
+    by_cases hsm : patchable cx m m' = true
     · simp only [hsm, if_true] at h8
       unfold lpFunction at h8
       simp only [bind_eq, pure_eq] at h8
@@ -168,7 +168,7 @@ theorem C16_function {cx : Ctx} {fuel : Nat} {vs : List Id} {fo fn : Id} {s s' :
         refine ⟨fun _ hf => ?_, fun _ _ => ⟨hr, rfl⟩, fun hf => ?_⟩
         · rw [hcf] at hf; cases hf
         · rw [hsm] at hf; cases hf
-    · have hsm' : sameModule cx m' = false := by simpa using hsm
+    · have hsm' : patchable cx m m' = false := by simpa using hsm
       simp only [hsm', Bool.false_eq_true, if_false] at h8
       obtain ⟨hr, hs⟩ := pure_ok.mp h8
       rw [hs]
@@ -188,12 +188,12 @@ theorem C16_class {cx : Ctx} {fuel : Nat} {vs : List Id} {co cn : Id} {s s' : St
     (hne : co ≠ cn) (hvs : co ∉ vs) (hc : s.cache.find? (fun e => e.1 = (co, cn)) = none)
     (hco : s.heap[co]? = some (.cls n m sl b a)) (hcn : s.heap[cn]? = some (.cls n' m' sl' b' a'))
     (h : lp cx fuel false vs co cn s = .ok (r, s')) :
-    (sameModule cx m' = true → optValEq s.heap (alookup slotsKey a) (alookup slotsKey a') = true →
+    (patchable cx m m' = true → optValEq s.heap (alookup slotsKey a) (alookup slotsKey a') = true →
         r = co ∧ ∃ b'' a'', s'.heap[co]? = some (.cls n m sl b'' a'') ∧ (∀ k, hasKey k a'' = clsTarget cx.fx a a' k) ∧
           (cx.fx.d18 = false → b'' = b')) ∧
-    (sameModule cx m' = true → optValEq s.heap (alookup slotsKey a) (alookup slotsKey a') = false →
+    (patchable cx m m' = true → optValEq s.heap (alookup slotsKey a) (alookup slotsKey a') = false →
         r = cn ∧ s'.heap = s.heap) ∧
-    (sameModule cx m' = false → r = cn ∧ s'.heap = s.heap) := by
+    (patchable cx m m' = false → r = cn ∧ s'.heap = s.heap) := by
   cases fuel with
   | zero => unfold lp at h; exact (fail_ok.mp h).elim
   | succ k =>
@@ -215,7 +215,7 @@ theorem C16_class {cx : Ctx} {fuel : Nat} {vs : List Id} {co cn : Id} {s s' : St
     obtain ⟨kd, s4, h7, h8⟩ := bind_ok.mp h3
     rw [resolveKind_cls hco hcn] at h7
     cases h7
-    by_cases hsm : sameModule cx m' = true
+    by_cases hsm : patchable cx m m' = true
     · simp only [hsm, if_true] at h8
       unfold lpClass at h8
       simp only [bind_eq, pure_eq] at h8
@@ -310,7 +310,7 @@ theorem C16_class {cx : Ctx} {fuel : Nat} {vs : List Id} {co cn : Id} {s s' : St
         refine ⟨fun _ hf => ?g1, fun _ _ => ⟨hr, rfl⟩, fun hf => ?g3⟩
         case g1 => rw [hsl'] at hf; cases hf
         case g3 => rw [hsm] at hf; cases hf
-    · have hsm' : sameModule cx m' = false := by simpa using hsm
+    · have hsm' : patchable cx m m' = false := by simpa using hsm
       simp only [hsm', Bool.false_eq_true, if_false] at h8
       obtain ⟨hr, hs⟩ := pure_ok.mp h8
       rw [hs]
